@@ -1,6 +1,9 @@
 mod c40;
+mod c41;
+mod c42;
+mod c44;
 mod util;
 
 fn main() {
-    vmon::run_main(&[("C40", c40::run)]);
+    vmon::run_main(&[("C40", c40::run), ("C41", c41::run), ("C42", c42::run), ("C44", c44::run)]);
 }
